@@ -1190,6 +1190,10 @@ def fault_lines():
         ("syntax", [line("garbage", text='.db "unterminated')]),
         ("syntax", [line("garbage", text=".dw 1 2")]),
         ("syntax", [line("garbage", text=".def acc = 1+2")]),
+        ("syntax", [line("garbage", text=".db2")]),
+        ("syntax", [line("garbage", text=".dw1,2")]),
+        ("syntax", [line("garbage", text=".org 0x300, 5")]),
+        ("syntax", [line("garbage", text=".message \"a\", \"b\"")]),
         ("syntax", [line("garbage", text=".def acc = 5")]),
         ("syntax", [line("garbage", text=".db 5 'a'")]),
         ("syntax", [line("garbage", text=".org 4 5")]),
@@ -1761,6 +1765,10 @@ def line_kind_programs():
     chain = lit(1)
     for i in range(127):
         chain = binop(("+", "/", "*", "-")[i % 4], chain, lit(1))
+    sub = chrlit(ord("z"))
+    for i in range(69):
+        sub = binop("-", sub, chrlit(ord("a") + i % 3))
+    P.append(("instr.chrchain", [data(8, E(sub)), instr("ldi", R(16), E(binop("&", par(copy.deepcopy(sub)), lit(255))))]))
     P.append(("instr.chain", [instr("ldi", R(16), E(binop("&", chain, lit(255)))), data(2, E(binop("&", copy.deepcopy(chain), lit(0x7fff))))]))     # as many operators as a line may have
     P.append(("instr.par", [k1, instr("ldi", R(16), E(binop("*", binop("+", sym("k1"), lit(1)), lit(2)))), instr("ldi", R(17), E(par(par(lit(0x21))))),
                             instr("cpi", R(18), E(fn("high", fn("lwrd", binop("-", lit(0x12345), par(sym("k1")))))))]))
